@@ -106,17 +106,15 @@ def cmd_check(prop, tier):
     events = 0
     violations = []          # (mode, index, violation)
     capped = False
+    crashes = []
     per_mode = {}
     all_results = {}
-
-    def stop_on(r):
-        return False
 
     for mode, n in subruns:
         nviol = [0]
 
         def stop_on(r, nviol=nviol):
-            if r['violation'] is not None:
+            if r.get('violation') is not None:
                 nviol[0] += 1
             return nviol[0] >= 25
         left = wall_cap - (time.time() - t0)
@@ -126,8 +124,12 @@ def cmd_check(prop, tier):
                                  chunk=getattr(eng, 'CHUNK', None))
         capped = capped or cap
         per_mode[mode] = len(res)
-        all_results[mode] = {r['index']: r['digest'] for r in res}
+        all_results[mode] = {r['index']: r.get('digest') for r in res}
         for r in res:
+            if 'crash' in r:
+                crashes.append((mode, r['index'], r['crash']))
+                all_results[mode].pop(r['index'], None)
+                continue
             evaluations += 1
             counters.merge(r['counters'])
             states.update(r['states'])
@@ -195,6 +197,8 @@ def cmd_check(prop, tier):
                 ENGINE_OF[prop], 'run_one', base, idx[-1] + 1,
                 extra={'prop': prop, 'mode': mode}, workers=5, chunk=3)
             for r in again:
+                if 'crash' in r:
+                    continue
                 det['in_process_checked'] += 1
                 if r['digest'] != all_results[mode].get(r['index']):
                     det['mismatches'] += 1
@@ -275,6 +279,9 @@ def cmd_check(prop, tier):
     if rows:
         coverage['table_rows_reached'] = len(rows)
         coverage['table_rows'] = rows[:400]
+    summ = getattr(eng, 'summarise_states', None)
+    if summ:
+        coverage.update(summ(states))
     extra_cov = getattr(eng, 'extra_coverage', None)
     if extra_cov:
         coverage.update(extra_cov(prop, counters))
@@ -297,6 +304,14 @@ def cmd_check(prop, tier):
     print('%s %s: %d runs (%s), %d distinct non-trivial, %d violating '
           'runs, %.1fs' % (prop, tier, evaluations, per_mode,
                            len(digests_nontrivial), len(violations), wall))
+    if crashes:
+        print('%d run(s) raised an unexpected exception inside the '
+              'simulator; first (%s #%d):\n%s' % (
+                  len(crashes), crashes[0][0], crashes[0][1],
+                  crashes[0][2][-1500:]))
+        if status == core.EXIT_OK and not harness_problem:
+            harness_problem = 'unexpected exception in %d run(s)' \
+                % len(crashes)
     if status == core.EXIT_OK and harness_problem:
         print('HARNESS-ERROR property=%s %s' % (prop, harness_problem))
         return core.EXIT_HARNESS
@@ -390,6 +405,9 @@ def main(argv):
         if cmd == 'selftest':
             from sim import selftest
             return selftest.main(argv[1:])
+        if cmd == 'seeded':
+            from sim import seeded
+            return seeded.main(argv[1:])
         print(__doc__)
         return 2
     except core.HarnessError as e:
